@@ -149,6 +149,8 @@ class ComponentState(object):
 
         self.repeatingObservable = None
         self._finishedCalled = False
+        # Serialises finish(): a component receives exactly one final state
+        self._finishLock = threading.RLock()
 
         self._detailedState : reactivex.Observable | None = None
         self._engine: experiment.runtime.engine.Engine | None = None
@@ -683,8 +685,22 @@ class ComponentState(object):
         In this situation it should be killed directly if you want it to stop
         '''
 
+        with self._finishLock:
+            self._finish(finalState)
+
+    def _finish(self, finalState):
+        final_states = [experiment.model.codes.FINISHED_STATE, experiment.model.codes.FAILED_STATE,
+                        experiment.model.codes.SHUTDOWN_STATE]
+
         self.log.info("Finish called for component %s with finalState %s" % (
             self.specification.identification, finalState))
+
+        if self.controllerState in final_states:
+            # A component has exactly one final state: e.g. a postMortemCheck() that was still deliberating when
+            # the controller stopped the stage must not overwrite the state that was published in the meantime
+            self.log.warning("Component %s is already in final state %s - ignoring finish(%s)" % (
+                self.specification.identification, self.controllerState, finalState))
+            return
 
         self._finishedCalled = True
 
@@ -700,7 +716,10 @@ class ComponentState(object):
                 if self.repeatingDisposable is not None:
                     self.repeatingDisposable.dispose()
 
-                self.controllerState = state
+                with self._finishLock:
+                    if self.controllerState in final_states:
+                        return
+                    self.controllerState = state
                 if shutdown:
                     self.engine.shutdown()
 
